@@ -54,6 +54,6 @@ pub fn build(tier: Tier) -> CheckDef {
         abort_is_violation: true,
         hang_is_violation: true,
         exhaustive: true,
-        bounds: json!({"lattice": bounds, "hash_word_strings_max_words": tier.pick(8, 10)}),
+        bounds: json!({"lattice": bounds, "hash_word_strings_max_words": tier.pick(8, 10), "surface_audit": super::surface_audit()}),
     }
 }
